@@ -7,19 +7,19 @@ variable (cfg : Cfg) (sfh : Bool)
 
 theorem frag_leaf (t : Ty) (h : match t with
     | .undef | .dflt | .numeric | .str | .bin | .int _ | .float _ _ | .bool _ | .tspan _ | .tstamp _ | .strSz _ | .strVal _ | .enum _ _
-    | .pattern _ | .regexp _ | .object _ | .scalar | .scalarData | .any | .coll _ | .data | .richData => True
+    | .pattern _ | .regexp _ | .runtime _ _ _ | .object _ | .scalar | .scalarData | .any | .coll _ | .data | .richData => True
     | _ => False) : t.Frag sfh := by
   cases t <;> simp only [] at h <;> (first | contradiction | (unfold Ty.Frag; trivial))
 
 theorem wfl (t : Ty) (h : match t with
     | .undef | .dflt | .numeric | .str | .bin | .int _ | .float _ _ | .bool _ | .tspan _ | .tstamp _ | .strSz _ | .strVal _
-    | .pattern _ | .regexp _ | .object _ | .scalar | .scalarData | .any | .coll _ | .data | .richData => True
+    | .pattern _ | .regexp _ | .runtime _ _ _ | .object _ | .scalar | .scalarData | .any | .coll _ | .data | .richData => True
     | _ => False) : Ty.WF cfg t := by
   cases t <;> simp only [] at h <;> (first | contradiction | (unfold Ty.WF; trivial))
 
 theorem usl (t : Ty) (h : match t with
     | .undef | .dflt | .numeric | .str | .bin | .int _ | .float _ _ | .bool _ | .tspan _ | .tstamp _ | .strSz _ | .strVal _ | .enum _ _
-    | .pattern _ | .regexp _ | .object _ | .scalar | .scalarData | .any | .coll _ | .data | .richData => True
+    | .pattern _ | .regexp _ | .runtime _ _ _ | .object _ | .scalar | .scalarData | .any | .coll _ | .data | .richData => True
     | _ => False) : t.US := by
   cases t <;> simp only [] at h <;> (first | contradiction | (unfold Ty.US; trivial))
 
